@@ -284,6 +284,8 @@ def dp_direction(prog: Program, rep, RID: str):
         want_rec = f"self.{attr}[{Y}]"
         if want_rec in vals and not others:
             rep.ok(RID, key + ":recurrence", f"R[{X}] |= R[{Y}] for every neighbour", f.loc(inner[0]))
+        elif not vals:
+            raise AnalysisError(f"stDAG.{pname}: the recurrence is not written as `self.{attr}[{X}] |= ...` (body: {[norm(s_)[:50] for s_ in inner[0].body]}): idiom not recognised")
         else:
             rep.violation(RID, key + ":recurrence", f"the union `self.{attr}[{X}] |= {want_rec}` over every neighbour is missing or conditional "
                           f"(updates: {vals})", f.loc(inner[0]))
